@@ -35,7 +35,8 @@ def on_generator_failure(run, name, xml_dir, msg):
     """A twin that only spells defaults explicitly must be accepted exactly like the core tree."""
     if name == "core" or name.startswith("mini:") or name.startswith("pairs"):
         return False
-    err = msg.strip().splitlines()[-1] if msg.strip() else "generator failed"
+    lines = [l for l in msg.strip().splitlines() if l.startswith("GENERATOR-FAILED")] or msg.strip().splitlines()
+    err = lines[-1] if lines else "generator failed"
     v = {"kind": "generator", "label": f"generator rejects the twin tree '{name}' (explicit boolean default changes behaviour)",
          "inputs": {"twin": name, "error": err[-300:]}}
     run.violations.append((f"generate[{name}]", v, {"fn": "<generator>", "args": [name]}, {"status": "generator", "message": err[-300:]}))
